@@ -1,1 +1,685 @@
-fn main() {}
+//! Runs the protocol layers of device-driver (register.rs, command.rs, buffer.rs) against scripted
+//! interfaces and prints one canonical line per case, in the same format as the extracted Coq
+//! model's driver (/verif/ocaml/proto_driver.ml).  Used by ./check C05 | C09 | C10.
+//!
+//! Case lines (tokens separated by one space; hex lower case, `-` = empty):
+//!   R <s|a> <size_bits> <addr> <reset_hex> <op.kind.pat[,op.kind.pat]*> <script>
+//!       op: w write, z write_with_zero, r read, m modify; kind: x (xor pat into the register),
+//!       s (overwrite the first bytes with pat); the closure returns the bytes it was shown.
+//!       s = blocking functions, a = *_async functions.
+//!   C <s|a> <n|i|o|b> <addr> <size_in> <size_out> <kind.pat> <script>
+//!   B <s|a|t|u> <w|W|f|r|R> <addr> <buf_hex> <script>
+//!       entry: s inherent blocking, a inherent async, t embedded_io trait, u embedded_io_async trait
+//!       op: w write, W write_all, f flush, r read, R read_exact
+//!   script: `-` or entry[,entry]*, entry = <res>:<data_hex>:<pendings>, res = k<n> (Ok / Ok(n)) | e<code>;
+//!       the i-th interface call of the case gets the i-th entry (default k0:-:0); data is stored
+//!       through the mutable slice of the call (if any), pendings = how often the interface future
+//!       answers Pending.
+//! Output: segment[ | segment]*, one segment per operation: `<events> => <result> p<polls>`.
+use device_driver::{
+    AsyncBufferInterface, AsyncCommandInterface, AsyncRegisterInterface, BufferInterface,
+    BufferInterfaceError, BufferOperation, CommandInterface, CommandOperation, FieldSet,
+    RegisterInterface, RegisterOperation, RW,
+};
+use std::cell::{Cell, RefCell};
+use std::future::Future;
+use std::io::{BufRead, BufWriter, Write};
+use std::panic::{catch_unwind, AssertUnwindSafe};
+use std::pin::{pin, Pin};
+use std::task::{Context, Poll, RawWaker, RawWakerVTable, Waker};
+
+// ---------------------------------------------------------------- helpers
+
+fn hex_to_bytes(h: &str) -> Vec<u8> {
+    if h == "-" {
+        return Vec::new();
+    }
+    (0..h.len() / 2).map(|i| u8::from_str_radix(&h[2 * i..2 * i + 2], 16).unwrap()).collect()
+}
+fn hex(b: &[u8]) -> String {
+    if b.is_empty() {
+        return "-".to_string();
+    }
+    let mut s = String::with_capacity(b.len() * 2);
+    for x in b {
+        s.push_str(&format!("{:02x}", x));
+    }
+    s
+}
+fn store(dst: &mut [u8], src: &[u8]) {
+    let n = dst.len().min(src.len());
+    dst[..n].copy_from_slice(&src[..n]);
+}
+
+thread_local! {
+    static LAST_PANIC: RefCell<String> = RefCell::new(String::new());
+    static RESET: RefCell<Vec<u8>> = RefCell::new(Vec::new());
+}
+
+fn panic_kind() -> String {
+    let msg = LAST_PANIC.with(|l| l.borrow().clone());
+    if msg.contains("write() returned Ok(0)") {
+        "PANIC:writezero".to_string()
+    } else if msg.contains("out of range for slice") {
+        "PANIC:slice".to_string()
+    } else {
+        format!("PANIC:other:{}", msg.replace(|c: char| c.is_whitespace() || c == '|', "_"))
+    }
+}
+
+// ---------------------------------------------------------------- field sets
+
+struct Fs<const BITS: u32, const N: usize>([u8; N]);
+impl<const BITS: u32, const N: usize> FieldSet for Fs<BITS, N> {
+    const SIZE_BITS: u32 = BITS;
+    fn new_with_zero() -> Self {
+        Fs([0; N])
+    }
+    fn get_inner_buffer(&self) -> &[u8] {
+        &self.0
+    }
+    fn get_inner_buffer_mut(&mut self) -> &mut [u8] {
+        &mut self.0
+    }
+}
+trait WithReset: FieldSet {
+    fn with_reset() -> Self;
+}
+impl<const BITS: u32, const N: usize> WithReset for Fs<BITS, N> {
+    fn with_reset() -> Self {
+        let mut a = [0u8; N];
+        RESET.with(|r| store(&mut a, &r.borrow()));
+        Fs(a)
+    }
+}
+
+macro_rules! with_fs {
+    ($sz:expr, $T:ident, $body:expr) => {
+        match $sz {
+            1 => { type $T = Fs<1, 1>; $body }
+            7 => { type $T = Fs<7, 1>; $body }
+            8 => { type $T = Fs<8, 1>; $body }
+            9 => { type $T = Fs<9, 2>; $body }
+            12 => { type $T = Fs<12, 2>; $body }
+            16 => { type $T = Fs<16, 2>; $body }
+            24 => { type $T = Fs<24, 3>; $body }
+            64 => { type $T = Fs<64, 8>; $body }
+            128 => { type $T = Fs<128, 16>; $body }
+            other => panic!("unsupported field set size {}", other),
+        }
+    };
+}
+
+// ---------------------------------------------------------------- scripted interfaces
+
+#[derive(Clone)]
+struct Entry {
+    res: Result<usize, u8>,
+    data: Vec<u8>,
+    pend: u32,
+}
+fn parse_script(s: &str) -> Vec<Entry> {
+    if s == "-" {
+        return Vec::new();
+    }
+    s.split(',')
+        .map(|e| {
+            let p: Vec<&str> = e.split(':').collect();
+            let res = if let Some(n) = p[0].strip_prefix('k') {
+                Ok(n.parse::<usize>().unwrap())
+            } else {
+                Err(p[0][1..].parse::<u8>().unwrap())
+            };
+            Entry { res, data: hex_to_bytes(p[1]), pend: p[2].parse().unwrap() }
+        })
+        .collect()
+}
+
+#[derive(Debug, Clone, Copy, PartialEq, Eq)]
+struct MockErr(u8);
+impl embedded_io::Error for MockErr {
+    fn kind(&self) -> embedded_io::ErrorKind {
+        embedded_io::ErrorKind::Other
+    }
+}
+
+struct Core<'a> {
+    script: &'a [Entry],
+    pos: &'a Cell<usize>,
+    log: &'a RefCell<Vec<String>>,
+}
+impl Core<'_> {
+    fn next(&self, ev: String) -> Entry {
+        self.log.borrow_mut().push(ev);
+        let i = self.pos.get();
+        self.pos.set(i + 1);
+        self.script.get(i).cloned().unwrap_or(Entry { res: Ok(0), data: Vec::new(), pend: 0 })
+    }
+}
+fn unit(e: &Entry) -> Result<(), MockErr> {
+    e.res.map(|_| ()).map_err(MockErr)
+}
+fn count(e: &Entry) -> Result<usize, MockErr> {
+    e.res.map_err(MockErr)
+}
+
+struct SyncMock<'a>(Core<'a>);
+struct AsyncMock<'a>(Core<'a>);
+
+impl RegisterInterface for SyncMock<'_> {
+    type Error = MockErr;
+    type AddressType = u32;
+    fn write_register(&mut self, address: u32, size_bits: u32, data: &[u8]) -> Result<(), MockErr> {
+        let e = self.0.next(format!("rw({},{},{})", address, size_bits, hex(data)));
+        unit(&e)
+    }
+    fn read_register(&mut self, address: u32, size_bits: u32, data: &mut [u8]) -> Result<(), MockErr> {
+        let e = self.0.next(format!("rr({},{},{})", address, size_bits, hex(data)));
+        store(data, &e.data);
+        unit(&e)
+    }
+}
+impl CommandInterface for SyncMock<'_> {
+    type Error = MockErr;
+    type AddressType = u32;
+    fn dispatch_command(
+        &mut self,
+        address: u32,
+        size_bits_in: u32,
+        input: &[u8],
+        size_bits_out: u32,
+        output: &mut [u8],
+    ) -> Result<(), MockErr> {
+        let e = self.0.next(format!(
+            "cd({},{},{},{},{})",
+            address,
+            size_bits_in,
+            hex(input),
+            size_bits_out,
+            hex(output)
+        ));
+        store(output, &e.data);
+        unit(&e)
+    }
+}
+impl BufferInterfaceError for SyncMock<'_> {
+    type Error = MockErr;
+}
+impl BufferInterface for SyncMock<'_> {
+    type AddressType = u32;
+    fn write(&mut self, address: u32, buf: &[u8]) -> Result<usize, MockErr> {
+        let e = self.0.next(format!("bw({},{})", address, hex(buf)));
+        count(&e)
+    }
+    fn flush(&mut self, address: u32) -> Result<(), MockErr> {
+        let e = self.0.next(format!("bf({})", address));
+        unit(&e)
+    }
+    fn read(&mut self, address: u32, buf: &mut [u8]) -> Result<usize, MockErr> {
+        let e = self.0.next(format!("br({},{})", address, hex(buf)));
+        store(buf, &e.data);
+        count(&e)
+    }
+}
+
+/// A future that answers Pending `0` times before it is Ready.
+struct PendN(u32);
+impl Future for PendN {
+    type Output = ();
+    fn poll(mut self: Pin<&mut Self>, cx: &mut Context<'_>) -> Poll<()> {
+        if self.0 == 0 {
+            Poll::Ready(())
+        } else {
+            self.0 -= 1;
+            cx.waker().wake_by_ref();
+            Poll::Pending
+        }
+    }
+}
+
+impl AsyncRegisterInterface for AsyncMock<'_> {
+    type Error = MockErr;
+    type AddressType = u32;
+    async fn write_register(&mut self, address: u32, size_bits: u32, data: &[u8]) -> Result<(), MockErr> {
+        let e = self.0.next(format!("rw({},{},{})", address, size_bits, hex(data)));
+        PendN(e.pend).await;
+        unit(&e)
+    }
+    async fn read_register(&mut self, address: u32, size_bits: u32, data: &mut [u8]) -> Result<(), MockErr> {
+        let e = self.0.next(format!("rr({},{},{})", address, size_bits, hex(data)));
+        PendN(e.pend).await;
+        store(data, &e.data);
+        unit(&e)
+    }
+}
+impl AsyncCommandInterface for AsyncMock<'_> {
+    type Error = MockErr;
+    type AddressType = u32;
+    async fn dispatch_command(
+        &mut self,
+        address: u32,
+        size_bits_in: u32,
+        input: &[u8],
+        size_bits_out: u32,
+        output: &mut [u8],
+    ) -> Result<(), MockErr> {
+        let e = self.0.next(format!(
+            "cd({},{},{},{},{})",
+            address,
+            size_bits_in,
+            hex(input),
+            size_bits_out,
+            hex(output)
+        ));
+        PendN(e.pend).await;
+        store(output, &e.data);
+        unit(&e)
+    }
+}
+impl BufferInterfaceError for AsyncMock<'_> {
+    type Error = MockErr;
+}
+impl AsyncBufferInterface for AsyncMock<'_> {
+    type AddressType = u32;
+    async fn write(&mut self, address: u32, buf: &[u8]) -> Result<usize, MockErr> {
+        let e = self.0.next(format!("bw({},{})", address, hex(buf)));
+        PendN(e.pend).await;
+        count(&e)
+    }
+    async fn flush(&mut self, address: u32) -> Result<(), MockErr> {
+        let e = self.0.next(format!("bf({})", address));
+        PendN(e.pend).await;
+        unit(&e)
+    }
+    async fn read(&mut self, address: u32, buf: &mut [u8]) -> Result<usize, MockErr> {
+        let e = self.0.next(format!("br({},{})", address, hex(buf)));
+        PendN(e.pend).await;
+        store(buf, &e.data);
+        count(&e)
+    }
+}
+
+// ---------------------------------------------------------------- executor
+
+fn noop_waker() -> Waker {
+    fn clone(_: *const ()) -> RawWaker {
+        RawWaker::new(std::ptr::null(), &VTABLE)
+    }
+    fn noop(_: *const ()) {}
+    static VTABLE: RawWakerVTable = RawWakerVTable::new(clone, noop, noop, noop);
+    unsafe { Waker::from_raw(RawWaker::new(std::ptr::null(), &VTABLE)) }
+}
+
+/// Polls `fut` until it is Ready; every call of `poll` is counted in `polls`.
+fn block_on<F: Future>(fut: F, polls: &Cell<u32>) -> F::Output {
+    let mut fut = pin!(fut);
+    let waker = noop_waker();
+    let mut cx = Context::from_waker(&waker);
+    loop {
+        polls.set(polls.get() + 1);
+        if polls.get() > 1_000_000 {
+            panic!("executor: future never became ready");
+        }
+        if let Poll::Ready(v) = fut.as_mut().poll(&mut cx) {
+            return v;
+        }
+    }
+}
+
+// ---------------------------------------------------------------- closures and result formatting
+
+#[derive(Clone)]
+struct Effect {
+    kind: char,
+    pat: Vec<u8>,
+}
+impl Effect {
+    fn parse(kind: &str, pat: &str) -> Effect {
+        Effect { kind: kind.chars().next().unwrap(), pat: hex_to_bytes(pat) }
+    }
+    /// the closure body: returns what it was shown
+    fn apply(&self, reg: &mut [u8]) -> Vec<u8> {
+        let seen = reg.to_vec();
+        let n = reg.len().min(self.pat.len());
+        for i in 0..n {
+            if self.kind == 'x' {
+                reg[i] ^= self.pat[i];
+            } else {
+                reg[i] = self.pat[i];
+            }
+        }
+        seen
+    }
+}
+
+fn fmt_bytes_res(r: Result<Vec<u8>, MockErr>) -> String {
+    match r {
+        Ok(b) => format!("ok:{}", hex(&b)),
+        Err(MockErr(k)) => format!("err:{}", k),
+    }
+}
+fn fmt_unit_res(r: Result<(), MockErr>) -> String {
+    match r {
+        Ok(()) => "ok".to_string(),
+        Err(MockErr(k)) => format!("err:{}", k),
+    }
+}
+fn fmt_count_res(r: Result<usize, MockErr>, buf: &[u8]) -> String {
+    match r {
+        Ok(n) => format!("n:{}:{}", n, hex(buf)),
+        Err(MockErr(k)) => format!("err:{}:{}", k, hex(buf)),
+    }
+}
+fn fmt_rx_res(r: Result<(), embedded_io::ReadExactError<MockErr>>, buf: &[u8]) -> String {
+    match r {
+        Ok(()) => format!("rxok:{}", hex(buf)),
+        Err(embedded_io::ReadExactError::UnexpectedEof) => format!("rxeof:{}", hex(buf)),
+        Err(embedded_io::ReadExactError::Other(MockErr(k))) => format!("rxother:{}:{}", k, hex(buf)),
+    }
+}
+
+/// Runs one operation, catching panics; returns the segment text and whether it panicked.
+fn segment(log: &RefCell<Vec<String>>, polls: &Cell<u32>, f: impl FnOnce() -> String) -> (String, bool) {
+    log.borrow_mut().clear();
+    polls.set(0);
+    let r = catch_unwind(AssertUnwindSafe(f));
+    let events = {
+        let l = log.borrow();
+        if l.is_empty() { "-".to_string() } else { l.join(",") }
+    };
+    match r {
+        Ok(res) => (format!("{} => {} p{}", events, res, polls.get()), false),
+        Err(_) => (format!("{} => {} p{}", events, panic_kind(), polls.get()), true),
+    }
+}
+
+// ---------------------------------------------------------------- registers
+
+fn run_reg<T: WithReset>(is_async: bool, addr: u32, ops: &[(char, Effect)], script: &[Entry]) -> String {
+    let log = RefCell::new(Vec::new());
+    let pos = Cell::new(0usize);
+    let polls = Cell::new(0u32);
+    let mut segs = Vec::new();
+    for (op, eff) in ops {
+        let (seg, panicked) = segment(&log, &polls, || {
+            if !is_async {
+                let mut m = SyncMock(Core { script, pos: &pos, log: &log });
+                let mut o = RegisterOperation::<_, u32, T, RW>::new(&mut m, addr, T::with_reset as fn() -> T);
+                match op {
+                    'w' => fmt_bytes_res(o.write(|r| eff.apply(r.get_inner_buffer_mut()))),
+                    'z' => fmt_bytes_res(o.write_with_zero(|r| eff.apply(r.get_inner_buffer_mut()))),
+                    'r' => fmt_bytes_res(o.read().map(|r| r.get_inner_buffer().to_vec())),
+                    'm' => fmt_bytes_res(o.modify(|r| eff.apply(r.get_inner_buffer_mut()))),
+                    _ => panic!("bad op"),
+                }
+            } else {
+                let mut m = AsyncMock(Core { script, pos: &pos, log: &log });
+                let mut o = RegisterOperation::<_, u32, T, RW>::new(&mut m, addr, T::with_reset as fn() -> T);
+                match op {
+                    'w' => fmt_bytes_res(block_on(o.write_async(|r| eff.apply(r.get_inner_buffer_mut())), &polls)),
+                    'z' => fmt_bytes_res(block_on(
+                        o.write_with_zero_async(|r| eff.apply(r.get_inner_buffer_mut())),
+                        &polls,
+                    )),
+                    'r' => fmt_bytes_res(block_on(o.read_async(), &polls).map(|r| r.get_inner_buffer().to_vec())),
+                    'm' => fmt_bytes_res(block_on(o.modify_async(|r| eff.apply(r.get_inner_buffer_mut())), &polls)),
+                    _ => panic!("bad op"),
+                }
+            }
+        });
+        segs.push(seg);
+        if panicked {
+            break;
+        }
+    }
+    segs.join(" | ")
+}
+
+fn case_reg(p: &[&str]) -> String {
+    let is_async = p[1] == "a";
+    let size: u32 = p[2].parse().unwrap();
+    let addr: u32 = p[3].parse().unwrap();
+    let reset = hex_to_bytes(p[4]);
+    RESET.with(|r| *r.borrow_mut() = reset);
+    let ops: Vec<(char, Effect)> = p[5]
+        .split(',')
+        .map(|o| {
+            let q: Vec<&str> = o.split('.').collect();
+            (q[0].chars().next().unwrap(), Effect::parse(q[1], q[2]))
+        })
+        .collect();
+    let script = parse_script(p[6]);
+    with_fs!(size, T, run_reg::<T>(is_async, addr, &ops, &script))
+}
+
+// ---------------------------------------------------------------- commands
+
+struct CmdCtx<'a> {
+    is_async: bool,
+    addr: u32,
+    eff: &'a Effect,
+    script: &'a [Entry],
+}
+
+fn run_cmd<F: FnOnce(&CmdCtx, &Cell<usize>, &RefCell<Vec<String>>, &Cell<u32>) -> String>(c: &CmdCtx, f: F) -> String {
+    let log = RefCell::new(Vec::new());
+    let pos = Cell::new(0usize);
+    let polls = Cell::new(0u32);
+    segment(&log, &polls, || f(c, &pos, &log, &polls)).0
+}
+
+fn cmd_none(c: &CmdCtx) -> String {
+    run_cmd(c, |c, pos, log, polls| {
+        if !c.is_async {
+            let mut m = SyncMock(Core { script: c.script, pos, log });
+            fmt_bytes_res(CommandOperation::<_, u32, (), ()>::new(&mut m, c.addr).dispatch().map(|_| Vec::new()))
+        } else {
+            let mut m = AsyncMock(Core { script: c.script, pos, log });
+            let o = CommandOperation::<_, u32, (), ()>::new(&mut m, c.addr);
+            fmt_bytes_res(block_on(o.dispatch_async(), polls).map(|_| Vec::new()))
+        }
+    })
+}
+fn cmd_in<I: FieldSet>(c: &CmdCtx) -> String {
+    run_cmd(c, |c, pos, log, polls| {
+        if !c.is_async {
+            let mut m = SyncMock(Core { script: c.script, pos, log });
+            let o = CommandOperation::<_, u32, I, ()>::new(&mut m, c.addr);
+            fmt_bytes_res(
+                o.dispatch(|r| {
+                    c.eff.apply(r.get_inner_buffer_mut());
+                })
+                .map(|_| Vec::new()),
+            )
+        } else {
+            let mut m = AsyncMock(Core { script: c.script, pos, log });
+            let o = CommandOperation::<_, u32, I, ()>::new(&mut m, c.addr);
+            fmt_bytes_res(
+                block_on(
+                    o.dispatch_async(|r| {
+                        c.eff.apply(r.get_inner_buffer_mut());
+                    }),
+                    polls,
+                )
+                .map(|_| Vec::new()),
+            )
+        }
+    })
+}
+fn cmd_out<O: FieldSet>(c: &CmdCtx) -> String {
+    run_cmd(c, |c, pos, log, polls| {
+        if !c.is_async {
+            let mut m = SyncMock(Core { script: c.script, pos, log });
+            let o = CommandOperation::<_, u32, (), O>::new(&mut m, c.addr);
+            fmt_bytes_res(o.dispatch().map(|r| r.get_inner_buffer().to_vec()))
+        } else {
+            let mut m = AsyncMock(Core { script: c.script, pos, log });
+            let o = CommandOperation::<_, u32, (), O>::new(&mut m, c.addr);
+            fmt_bytes_res(block_on(o.dispatch_async(), polls).map(|r| r.get_inner_buffer().to_vec()))
+        }
+    })
+}
+fn cmd_inout<I: FieldSet, O: FieldSet>(c: &CmdCtx) -> String {
+    run_cmd(c, |c, pos, log, polls| {
+        if !c.is_async {
+            let mut m = SyncMock(Core { script: c.script, pos, log });
+            let o = CommandOperation::<_, u32, I, O>::new(&mut m, c.addr);
+            fmt_bytes_res(
+                o.dispatch(|r| {
+                    c.eff.apply(r.get_inner_buffer_mut());
+                })
+                .map(|r| r.get_inner_buffer().to_vec()),
+            )
+        } else {
+            let mut m = AsyncMock(Core { script: c.script, pos, log });
+            let o = CommandOperation::<_, u32, I, O>::new(&mut m, c.addr);
+            fmt_bytes_res(
+                block_on(
+                    o.dispatch_async(|r| {
+                        c.eff.apply(r.get_inner_buffer_mut());
+                    }),
+                    polls,
+                )
+                .map(|r| r.get_inner_buffer().to_vec()),
+            )
+        }
+    })
+}
+fn cmd_inout_o<I: FieldSet>(c: &CmdCtx, size_out: u32) -> String {
+    with_fs!(size_out, O, cmd_inout::<I, O>(c))
+}
+
+fn case_cmd(p: &[&str]) -> String {
+    let size_in: u32 = p[4].parse().unwrap();
+    let size_out: u32 = p[5].parse().unwrap();
+    let q: Vec<&str> = p[6].split('.').collect();
+    let eff = Effect::parse(q[0], q[1]);
+    let script = parse_script(p[7]);
+    let c = CmdCtx { is_async: p[1] == "a", addr: p[3].parse().unwrap(), eff: &eff, script: &script };
+    match p[2] {
+        "n" => cmd_none(&c),
+        "i" => with_fs!(size_in, I, cmd_in::<I>(&c)),
+        "o" => with_fs!(size_out, O, cmd_out::<O>(&c)),
+        "b" => with_fs!(size_in, I, cmd_inout_o::<I>(&c, size_out)),
+        _ => panic!("bad shape"),
+    }
+}
+
+// ---------------------------------------------------------------- buffers
+
+fn case_buf(p: &[&str]) -> String {
+    let entry = p[1];
+    let op = p[2];
+    let addr: u32 = p[3].parse().unwrap();
+    let data = hex_to_bytes(p[4]);
+    let script = parse_script(p[5]);
+    let log = RefCell::new(Vec::new());
+    let pos = Cell::new(0usize);
+    let polls = Cell::new(0u32);
+    // the caller's slice lives outside the unwinding region so that it can be printed
+    let mut buf = data.clone();
+    let (seg, _) = segment(&log, &polls, || match entry {
+        "s" => {
+            let mut m = SyncMock(Core { script: &script, pos: &pos, log: &log });
+            let mut o = BufferOperation::<_, u32, RW>::new(&mut m, addr);
+            match op {
+                "w" => fmt_count_res(o.write(&data), &[]),
+                "W" => fmt_unit_res(o.write_all(&data)),
+                "f" => fmt_unit_res(o.flush()),
+                "r" => {
+                    let r = o.read(&mut buf);
+                    fmt_count_res(r, &buf)
+                }
+                "R" => {
+                    let r = o.read_exact(&mut buf);
+                    fmt_rx_res(r, &buf)
+                }
+                _ => panic!("bad op"),
+            }
+        }
+        "t" => {
+            let mut m = SyncMock(Core { script: &script, pos: &pos, log: &log });
+            let mut o = BufferOperation::<_, u32, RW>::new(&mut m, addr);
+            match op {
+                "w" => fmt_count_res(embedded_io::Write::write(&mut o, &data), &[]),
+                "W" => fmt_unit_res(embedded_io::Write::write_all(&mut o, &data)),
+                "f" => fmt_unit_res(embedded_io::Write::flush(&mut o)),
+                "r" => {
+                    let r = embedded_io::Read::read(&mut o, &mut buf);
+                    fmt_count_res(r, &buf)
+                }
+                "R" => {
+                    let r = embedded_io::Read::read_exact(&mut o, &mut buf);
+                    fmt_rx_res(r, &buf)
+                }
+                _ => panic!("bad op"),
+            }
+        }
+        "a" => {
+            let mut m = AsyncMock(Core { script: &script, pos: &pos, log: &log });
+            let mut o = BufferOperation::<_, u32, RW>::new(&mut m, addr);
+            match op {
+                "w" => fmt_count_res(block_on(o.write_async(&data), &polls), &[]),
+                "W" => fmt_unit_res(block_on(o.write_all_async(&data), &polls)),
+                "f" => fmt_unit_res(block_on(o.flush_async(), &polls)),
+                "r" => {
+                    let r = block_on(o.read_async(&mut buf), &polls);
+                    fmt_count_res(r, &buf)
+                }
+                "R" => {
+                    let r = block_on(o.read_exact_async(&mut buf), &polls);
+                    fmt_rx_res(r, &buf)
+                }
+                _ => panic!("bad op"),
+            }
+        }
+        "u" => {
+            let mut m = AsyncMock(Core { script: &script, pos: &pos, log: &log });
+            let mut o = BufferOperation::<_, u32, RW>::new(&mut m, addr);
+            match op {
+                "w" => fmt_count_res(block_on(embedded_io_async::Write::write(&mut o, &data), &polls), &[]),
+                "W" => fmt_unit_res(block_on(embedded_io_async::Write::write_all(&mut o, &data), &polls)),
+                "f" => fmt_unit_res(block_on(embedded_io_async::Write::flush(&mut o), &polls)),
+                "r" => {
+                    let r = block_on(embedded_io_async::Read::read(&mut o, &mut buf), &polls);
+                    fmt_count_res(r, &buf)
+                }
+                "R" => {
+                    let r = block_on(embedded_io_async::Read::read_exact(&mut o, &mut buf), &polls);
+                    fmt_rx_res(r, &buf)
+                }
+                _ => panic!("bad op"),
+            }
+        }
+        _ => panic!("bad entry"),
+    });
+    seg
+}
+
+fn main() {
+    std::panic::set_hook(Box::new(|info| {
+        let s = info.to_string();
+        LAST_PANIC.with(|l| *l.borrow_mut() = s);
+    }));
+    let path = std::env::args().nth(1).expect("usage: proto_runner <case file>");
+    let f = std::io::BufReader::new(std::fs::File::open(path).unwrap());
+    let stdout = std::io::stdout();
+    let mut out = BufWriter::new(stdout.lock());
+    for line in f.lines() {
+        let line = line.unwrap();
+        if line.is_empty() || line.starts_with('#') {
+            continue;
+        }
+        let p: Vec<&str> = line.split(' ').collect();
+        let r = catch_unwind(AssertUnwindSafe(|| match p[0] {
+            "R" => case_reg(&p),
+            "C" => case_cmd(&p),
+            "B" => case_buf(&p),
+            _ => panic!("bad case kind"),
+        }));
+        match r {
+            Ok(s) => writeln!(out, "{}", s).unwrap(),
+            Err(_) => writeln!(out, "HARNESS-{}", panic_kind()).unwrap(),
+        }
+    }
+}
